@@ -49,6 +49,15 @@ func (r *rig) judge() *gx.Outcome {
 			}
 		}
 	}
+	if p.Idem && bumped == "" {
+		// the epoch is bumped in the producer's transaction manager whenever a sequenced message is failed,
+		// also when no batch of the new epoch reaches the wire afterwards
+		for _, e := range r.events {
+			if !e.ok && e.err != sarama.ErrShuttingDown.Error() {
+				bumped = " after-epoch-bump"
+			}
+		}
+	}
 	byID := map[string][]event{}
 	for _, e := range r.events {
 		byID[e.id] = append(byID[e.id], e)
@@ -65,7 +74,7 @@ func (r *rig) judge() *gx.Outcome {
 			if e.ok {
 				ev = append(ev, fmt.Sprintf("%s:ok@%d/%d", e.id, e.part, e.off))
 			} else {
-				ev = append(ev, fmt.Sprintf("%s:err(%s)", e.id, e.err))
+				ev = append(ev, fmt.Sprintf("%s:err(%s)", e.id, normErr(e.err)))
 			}
 		}
 		sort.Strings(ev) // arrival order across partitions depends on Go's map order; no oracle depends on it
@@ -112,6 +121,9 @@ func (r *rig) judge() *gx.Outcome {
 		case n > 1:
 			out.Violate("C01", "two-outcomes", "message %s got %d terminal events (%s); %s", id, n, cfg, summary())
 		}
+	}
+	if r.calls > 0 {
+		out.Violate("C01", "sync-call-never-returned", "%d SendMessage/SendMessages call(s) never returned (%s); %s", r.calls, cfg, summary())
 	}
 	for id := range byID {
 		if n := idNum(id); n < 0 || n >= r.submitted {
@@ -198,6 +210,10 @@ func (r *rig) judge() *gx.Outcome {
 			}
 		}
 	}
+	for _, br := range r.cl.BadRequests {
+		out.Violate("C04", "undecodable-request-on-wire", "the broker received bytes that do not decode as a request (codec %v, %s): %s", p.Codec, p.Version, br)
+		break
+	}
 	for _, pe := range r.cl.Produced {
 		for _, b := range pe.Batches {
 			for _, x := range b.Recs {
@@ -209,11 +225,20 @@ func (r *rig) judge() *gx.Outcome {
 				if b.Partition != p.Parts[n] {
 					out.Violate("C04", "wrong-partition-on-wire", "m%d was sent to partition %d, partitioner chose %d", n, b.Partition, p.Parts[n])
 				}
-				if x.Key != nil {
-					out.Violate("C04", "altered-on-wire", "m%d carried key %q, submitted nil", n, x.Key)
+				if wk := p.KeyOf(n); !bytes.Equal(x.Key, wk) || (len(wk) > 0) != (len(x.Key) > 0) {
+					out.Violate("C04", "altered-on-wire key", "m%d carried key %q, submitted %q (codec %v, %s)", n, x.Key, wk, p.Codec, p.Version)
 				}
-				if p.Icpt == 0 && len(x.Headers) != 0 {
-					out.Violate("C04", "altered-on-wire", "m%d carried %d headers, submitted none", n, len(x.Headers))
+				if p.Icpt == 0 {
+					wh := p.HeadersOf(n)
+					if len(x.Headers) != len(wh) {
+						out.Violate("C04", "altered-on-wire headers", "m%d carried %d headers, submitted %d (codec %v, %s)", n, len(x.Headers), len(wh), p.Codec, p.Version)
+					} else {
+						for j := range wh {
+							if !bytes.Equal(wh[j].Key, x.Headers[j].Key) || !bytes.Equal(wh[j].Value, x.Headers[j].Value) {
+								out.Violate("C04", "altered-on-wire headers", "m%d header %d is %s=%s, submitted %s=%s", n, j, x.Headers[j].Key, x.Headers[j].Value, wh[j].Key, wh[j].Value)
+							}
+						}
+					}
 				}
 			}
 		}
@@ -436,4 +461,14 @@ func firstLines(s string, n int) string {
 		l = l[:n]
 	}
 	return strings.Join(l, "\n    ")
+}
+
+// normErr: which of several equivalent connection-failure texts a caller sees depends on which side
+// noticed the closed pipe first; they are one observation.
+func normErr(e string) string {
+	switch {
+	case e == "EOF", strings.Contains(e, "closed pipe"), strings.Contains(e, "unexpected EOF"), strings.Contains(e, "broker not connected"):
+		return "<connection failure>"
+	}
+	return e
 }
